@@ -544,6 +544,8 @@ class Interp(object):
         ordinal = self._loop_ordinal(node, frame)
         spec = self.loop_specs.get((frame.qualname, ordinal))
         it = self.eval(node.iter, frame)
+        if self._accelerate_dict_fill(node, it, frame):
+            return
         if spec is not None and self.loop_spec_active(spec) and not self._concrete_iterable(it):
             return self.exec_loop_with_spec(node, frame, spec, kind='for', iterable=it)
         broke = [False]
@@ -559,6 +561,56 @@ class Interp(object):
         except BreakSignal:
             return
         self.exec_block(node.orelse, frame)
+
+    def _accelerate_dict_fill(self, node, itv, frame):
+        """Loop summarisation (engine rule):   for i in range(lo, hi): D[(e1, .., ek, i)] = v
+        with e1..ek and v not mentioning i  ==  one range binding of D for lo <= i < hi.
+        Exact for the dictionary model (later bindings shadow earlier ones, a range binding
+        binds every key of the range).  Returns True when the loop was summarised."""
+        if not (isinstance(itv, IterSource) and itv.kind == 'range'):
+            return False
+        lo, hi, st = itv.data
+        if smt.as_concrete_int(st) != 1:
+            return False
+        clo, chi = smt.as_concrete_int(lo), smt.as_concrete_int(hi)
+        if clo is not None and chi is not None and chi - clo < 8:
+            return False       # short concrete ranges are simply unrolled
+        if node.orelse or len(node.body) != 1 or not isinstance(node.target, ast.Name):
+            return False
+        s = node.body[0]
+        if not (isinstance(s, ast.Assign) and len(s.targets) == 1 and isinstance(s.targets[0], ast.Subscript)
+                and isinstance(s.targets[0].value, ast.Name)):
+            return False
+        var = node.target.id
+
+        def mentions(n):
+            return any(isinstance(x, ast.Name) and x.id == var for x in ast.walk(n))
+        key = s.targets[0].slice
+        if isinstance(key, ast.Name) and key.id == var:
+            prefix_nodes = []
+        elif isinstance(key, ast.Tuple) and key.elts and isinstance(key.elts[-1], ast.Name) \
+                and key.elts[-1].id == var and not any(mentions(e) for e in key.elts[:-1]):
+            prefix_nodes = key.elts[:-1]
+        else:
+            return False
+        if mentions(s.value):
+            return False
+        d = self.eval(s.targets[0].value, frame)
+        if not isinstance(d, DictVal):
+            return False
+        from .values import int_term
+        if clo is None or chi is None:
+            if self.p.branch(int_term(lo) >= int_term(hi)):
+                return True            # empty range: the body is never evaluated
+        elif clo >= chi:
+            return True
+        prefix = [self.eval(e, frame) for e in prefix_nodes]
+        v = self.eval(s.value, frame)
+        from . import dicts
+        last = (chi - 1) if chi is not None else z3.simplify(int_term(hi) - 1)
+        dicts.dict_range_update(self, d, prefix, lo, last, v)
+        self.assign(node.target, last, frame)
+        return True
 
     def _concrete_iterable(self, it):
         """iterables whose length is known: the loop is unrolled, a loop spec is not needed"""
